@@ -10,6 +10,10 @@ package decode
 // such views: each lies inside the buffer the function returns, below its
 // length - and Do keeps exactly that buffer as event.Buf, so that the next
 // action appends behind the names instead of over them.
+// With keep_origin the decoder is given a copy of the field's text (it may cut
+// over-long fields in place - json_max_fields_size): the origin that stays in the
+// event must not be the text the decoder works on (assumed: a node's text that lives
+// in the event buffer lies below the buffer's length - insane-json decodes from it).
 
 //@ func (*Plugin).decodeJson
 //@   option allow-exit yes
@@ -23,13 +27,19 @@ package decode
 //@     pure
 //@   callee AsString() (r)
 //@     pure
+//@   ghost gnb int = 0
+//@   ghost gend int = 0
+//@   assume at "if p.config.KeepOrigin {" ref(data) != ref(buf) || off(data) + len(data) <= off(buf) + len(buf)
 //@   callee AsBytes() (r)
 //@     pure
+//@     set gnb := ref(r)
+//@     set gend := off(r) + len(r)
 //@   callee IsObject() (r)
 //@     pure
 //@   callee checkError(e, n) (r)
 //@     pure
 //@   callee Decode(d, a) (r, e)
+//@     requires p.config.KeepOrigin ==> ref(d) != gnb || off(d) >= gend
 //@     pure
 //@     ensures typeis(r, "*github.com/ozontech/insane-json.Node")
 
